@@ -57,7 +57,10 @@ class Ctx:
         state = {'k': 0}
 
         def cause():
-            return log.cause_stack[-1] if log.cause_stack else frozenset()
+            c = log.cause_stack[-1] if log.cause_stack else frozenset()
+            last = log.ev[-1] if log.ev else None
+            inherited = bool(last is not None and last[2] == 'IN' and last[3] == nid and not last[6])
+            return (c, inherited)
 
         if kind == 'sync':
             def sink(x):
